@@ -469,6 +469,10 @@ def step (fields : List String) : String :=
     -- an invocation whose real run ends in an output failure: how far the last phase got is not
     -- specified (the parallel driver writes backups before rejects, the sequential one after): only
     -- the exit status is compared, and nothing behind it (the model continues from its own tree)
+    -- the patch reported as failing is read off the tool's messages: where the harness could not find it (`-`, e.g.
+    -- after a rewording) it is unknown, not different — C10 compares the dry run's with the real run's, both read the same way
+    let m := (m.zip (impl ++ List.replicate (m.length - impl.length) "")).map (fun (a, b) =>
+      if fieldOf b "failed" == "-" then ";".intercalate ((a.splitOn ";").map (fun x => if x.startsWith "failed=" then "failed=-" else x)) else a)
     let ioFlags := realIoFlags (parseTree tree) invs impl
     let firstIo := (ioFlags.zipIdx.find? (fun (b, _) => b)).map (·.2)
     let eqs := ((m.zip impl).zipIdx).map (fun ((a, b), i) =>
